@@ -192,6 +192,43 @@ def valid_c(env, order):
     return True
 
 
+def leaf_checks(env, rec, expr):
+    """Rust boolean expressions, one per scalar leaf of the record (through nested records and arrays), true iff that leaf is zero"""
+    out = []
+    if rec.opaque or rec.blocklisted or rec.packed:
+        return out      # (members of a packed record cannot be borrowed; the text check of write_bytes covers it)
+
+    def leaf(t, e):
+        k = t.kind
+        if k == "TArr":
+            if t.n == 0:
+                return
+            for i in sorted({0, t.n - 1}):
+                leaf(t.elem, "%s[%d]" % (e, i))
+        elif k == "TRec":
+            sub = env[t.rec]
+            if sub.union or sub.opaque or sub.blocklisted or sub.packed:
+                return
+            out.extend(leaf_checks(env, sub, e))
+        elif k == "TInt":
+            out.append("(%s as i128) == 0" % e)
+        elif k == "TEnum":
+            out.append("(%s as i128) == 0" % e)
+        elif k == "TFloat":
+            out.append("%s.to_bits() == 0" % e)
+        elif k == "TPtr":
+            out.append("%s.is_null()" % e)
+        elif k == "TFnPtr":
+            out.append("%s.is_none()" % e)
+    if rec.union:
+        return out
+    for name, t, w in rec.fields:
+        if w:
+            continue      # bit-fields live in the allocation unit
+        leaf(t, "%s.%s" % (expr, name))
+    return out
+
+
 def option_sets(r, quick):
     names = ["copy", "debug", "default", "hash", "partialord", "ord", "partialeq", "eq", "impl_debug"]
     full = {k: True for k in names}
@@ -365,6 +402,10 @@ def run(ck):
                 if env[n].blocklisted:
                     dcode, mcode = [], []
                     ds, man = set(), set()
+                if env[n].opaque and ds is not None:
+                    # whether an opaque composite "has a float" depends on the order in which the HasFloat analysis meets its members
+                    # (its fields are not traced): Eq / Ord on an opaque blob are harmless either way and are not compared
+                    ds = ds - {"Eq", "Ord"}
                 dmask = [1 if t in (ds or set()) else 0 for t in TRAITS]
                 mmask = [1 if t in (man or set()) else 0 for t in TRAITS]
                 rows.append("(%s, %s, %s, %s, %s)" % (env[n].coq(env), vlib.coq_nlist(ans), vlib.coq_nlist(dmask), vlib.coq_nlist(mmask), "true" if (ds is not None and not env[n].blocklisted) else "false"))
@@ -376,15 +417,18 @@ Definition traits := [Copy; Clone; Debug; Default; Hash; PartialOrd; Ord; Partia
 Definition atraits := [ACopy; ADebug; ADefault; AHash; APartialEq].
 Definition rows : list (ty * list N * list N * list N * bool) := [%s].
 Definition ans_ok (m impl : N) : bool := (impl =? 9) || (if impl =? 3 then negb (m =? 0) else m =? impl).
+Definition opaque_rec (t : ty) : bool := match t with TRec i _ => r_opaque i | _ => false end.
 Definition mask (l : list trait) : list N := map (fun t => if mem t l then 1 else 0) traits.
+Definition dmask (t : ty) : list N :=
+  map (fun tr => if mem tr (derives_of o t) && negb (opaque_rec t && match tr with Eq | Ord => true | _ => false end) then 1 else 0) traits.
 Fixpoint leqb (a b : list N) : bool := match a, b with [], [] => true | x :: a', y :: b' => (x =? y) && leqb a' b' | _, _ => false end.
 Definition row_bad (r : ty * list N * list N * list N * bool) : list N :=
   match r with (t, ans, ds, man, emitted) =>
     [ if forallb (fun p => ans_ok (can o (fst p) t) (snd p)) (combine atraits ans) then 0 else 1;
-      if negb emitted || leqb (mask (derives_of o t)) ds then 0 else 1;
+      if negb emitted || leqb (dmask t) ds then 0 else 1;
       if negb emitted || leqb (mask (manual o t)) man then 0 else 1 ] end.
 Eval vm_compute in map row_bad rows.
-Eval vm_compute in map (fun r => match r with (t, _, _, _, _) => map (fun a => can o a t) atraits ++ mask (derives_of o t) ++ mask (manual o t) end) rows.
+Eval vm_compute in map (fun r => match r with (t, _, _, _, _) => map (fun a => can o a t) atraits ++ dmask t ++ mask (manual o t) end) rows.
 """ % (coq_opts(o), ";\n ".join(rows))
             bodies.append(body)
             metas.append((gi, oi, [n for n in order if n in byname], obs, base, o, dict(mods), {n: env[n].text() for n in order}))
@@ -430,8 +474,14 @@ Eval vm_compute in map (fun r => match r with (t, _, _, _, _) => map (fun a => c
                     path = {"Debug": "::std::fmt::Debug", "Hash": "::std::hash::Hash"}.get(t, t)
                     probes += "    needs_%s::<%s>();\n" % (t.lower(), n)
                 if "Default" in man:
-                    runs += ("    { let v: %s = Default::default(); let p = &v as *const %s as *const u8; let mut nz = 0usize; for i in 0..::std::mem::size_of::<%s>() { if unsafe { *p.add(i) } != 0 { nz += 1; } }\n"
-                             "      println!(\"default %s {}\", nz); %s }\n" % (n, n, n, n, ("let s = format!(\"{:?}\", v); println!(\"debug %s {}\", s.len() > 0);" % n) if "Debug" in (ds | man) else ""))
+                    # every member of the hand-written Default must be zero (padding after a move is not observable in Rust: the impl's
+                    # write_bytes over the whole object is checked on the text)
+                    checks = leaf_checks(env, env[n], "v")
+                    runs += "    { let v: %s = Default::default(); let mut nz = 0usize; %s println!(\"default %s {}\", nz); %s }\n" % (
+                        n, " ".join("if !(%s) { nz += 1; }" % c_ for c_ in checks), n, ("let s = format!(\"{:?}\", v); println!(\"debug %s {}\", s.len() > 0);" % n) if "Debug" in (ds | man) else "")
+                    mm = re.search(r"impl Default for %s \{.*?\n\}" % n, out, re.S)
+                    if not (mm and re.search(r"write_bytes\(\s*s\.as_mut_ptr\(\)\s*,\s*0\s*,\s*1\s*\)", mm.group(0))):
+                        probes += "    compile_error!(\"hand-written Default of %s does not zero the whole object\");\n" % n
             user = ""
             if "block" in mods and mods["block"] in res["align"]:
                 s, a = res["align"][mods["block"]]
@@ -458,23 +508,26 @@ Eval vm_compute in map (fun r => match r with (t, _, _, _, _) => map (fun a => c
             base = {"header": res["hdr"], "flags": res["flags"]}
             if c[0] == "compile":
                 errs = e2e.rustc_errors(c[1], 4)
-                code = re.search(r"error\[(E\d+)\]", c[1])
-                # classify by the documented holes
-                why = "other"
-                if not closed(o) and re.search(r"can't compare|: Eq` is not satisfied|PartialEq", c[1]):
-                    why = "supertrait-option-gap"
+                codes = re.findall(r"error\[(E\d+)\]", c[1])
+                # classify by the documented hole, with one canonical code per hole (the first code rustc prints varies)
+                m = re.search(r"`(T\d+)` doesn't implement `(?:std::fmt::)?(\w+)`|the trait bound `(T\d+): (?:std::\w+::)?(\w+)` is not satisfied|can't compare `(T\d+)`|cannot be applied to type `(T\d+)`|cannot move out of `self\.(\w+)`", c[1])
+                culprit = m and next((g for g in m.groups() if g and g.startswith("T")), None)
+                packed_culprit = bool(culprit and culprit in env and env[culprit].packed) or ("--no-derive-copy" in res["flags"] and any(env[n].packed for n in order))
+                if "E0588" in codes or "E0587" in codes:
+                    code, why = "E0588", "packed-contains-aligned"
+                elif not closed(o) and re.search(r"can't compare|: Eq` is not satisfied", c[1]) and not packed_culprit:
+                    code, why = "E0277", "supertrait-option-gap"
+                elif re.search(r"__BindgenOpaqueArray\d*<[^>]*>[^\n]*(?:PartialOrd|Ord|can't compare)|can't compare `__BindgenOpaqueArray", c[1]):
+                    code, why = "E0277", "opaque-blob-lacks-partialord"
+                elif packed_culprit and any(x in codes for x in ("E0277", "E0369", "E0507", "E0599")):
+                    code, why = "E0277", "packed-noncopy-member"
+                elif o["impl_debug"] and re.search(r"cannot be formatted using `\{:\?\}`|required for `\[T\d+; \d+\]` to implement `Debug`", c[1]):
+                    code, why = "E0277", "manual-debug-member-without-debug"
+                elif "E0793" in codes and o["impl_debug"]:
+                    code, why = "E0793", "manual-debug-on-packed"
                 else:
-                    m = re.search(r"`(T\d+)` doesn't implement `(?:std::fmt::)?(\w+)`|the trait bound `(T\d+): (?:std::\w+::)?(\w+)` is not satisfied|`(T\d+)`: (\w+)` is not satisfied", c[1])
-                    culprit = m and (m.group(1) or m.group(3) or m.group(5))
-                    if o["impl_debug"] and re.search(r"cannot be formatted using `\{:\?\}`|required for `\[T\d+; \d+\]` to implement `Debug`", c[1]) and not (culprit and culprit in env and env[culprit].packed):
-                        why = "manual-debug-member-without-debug"
-                    elif culprit and culprit in env and env[culprit].packed:
-                        why = "packed-noncopy-member"
-                    elif code and code.group(1) == "E0793" and o["impl_debug"]:
-                        why = "manual-debug-on-packed"
-                    elif re.search(r"__BindgenOpaqueArray\d*<[^>]*>[^\n]*(?:PartialOrd|Ord|can't compare)|can't compare `__BindgenOpaqueArray", c[1]):
-                        why = "opaque-blob-lacks-partialord"
-                ck.violation("C08-bindings-rejected:%s:%s" % (code.group(1) if code else "E?", why), "rustc rejects the derives bindgen emitted", dict(base, rustc=errs, stderr=c[1][-900:]))
+                    code, why = (codes[0] if codes else "E?"), "other"
+                ck.violation("C08-bindings-rejected:%s:%s" % (code, why), "rustc rejects the derives bindgen emitted", dict(base, rustc=errs, stderr=c[1][-900:]))
                 continue
             _, rc, so, se = c
             if rc != 0:
